@@ -21,7 +21,11 @@ use std::collections::HashSet;
 use std::path::Path;
 use syn::{BinOp, Expr, Lit, Pat, Stmt};
 
-pub const TARGETS: &[Target] = &[("gate", "Gate", gate as Gen)];
+pub const TARGETS: &[Target] = &[
+    ("gate", "Gate", gate as Gen),
+    ("gatesig", "GateSig", gatesig as Gen),
+    ("gatereg", "GateReg", gatereg as Gen),
+];
 
 type R = Result<String, String>;
 
@@ -645,6 +649,202 @@ fn derives_eq(file: &syn::File, rel: &str, ty: &str, fields: Option<Vec<&str>>) 
     if found { Ok(()) } else { Err(format!("{rel}: type {ty} not found")) }
 }
 
+// ------------------------------------------------- force_filtermap_types
+
+/// `if let Type::P(x) = self.resolve_type(S) { self.unify(&Type::P(x), &Type::F(), f.ident.id, None).unwrap(); }`
+/// statements of `TypeChecker::force_filtermap_types`: (side variable, pattern, forced type).
+#[derive(Default)]
+struct ForceArms {
+    arms: Vec<(String, String, String)>,
+    bad: Vec<String>,
+}
+
+impl<'ast> syn::visit::Visit<'ast> for ForceArms {
+    fn visit_expr_if(&mut self, i: &'ast syn::ExprIf) {
+        if let Expr::Let(l) = &*i.cond {
+            let scrut = toks(&l.expr);
+            if let Some(side) = scrut.strip_prefix("self.resolve_type(").and_then(|s| s.strip_suffix(')')) {
+                let pat = toks(&l.pat);
+                // Type::Var(x)
+                let Some((head, var)) = pat.strip_prefix("Type::").and_then(|s| s.strip_suffix(')')).and_then(|s| s.split_once('(')) else {
+                    self.bad.push(format!("unsupported pattern `{pat}` on a resolved verdict side"));
+                    return;
+                };
+                let body = toks(&i.then_branch).replace(['{', '}'], "");
+                let want_prefix = format!("self.unify(&Type::{head}({var}),&Type::");
+                let want_suffix = "(),f.ident.id,None,).unwrap();";
+                let forced = body.strip_prefix(&want_prefix).and_then(|s| s.strip_suffix(want_suffix));
+                match forced {
+                    Some(f) if i.else_branch.is_none() && f.chars().all(|c| c.is_alphanumeric() || c == '_') => {
+                        self.arms.push((side.to_string(), head.to_string(), f.to_string()));
+                    }
+                    _ => self.bad.push(format!("unsupported forcing statement `{}`", toks(i))),
+                }
+                return;
+            }
+        }
+        syn::visit::visit_expr_if(self, i);
+    }
+}
+
+fn force_filtermap(repo: &Path) -> Result<Vec<(String, String, String)>, String> {
+    let tc = find::parse(repo, "src/typechecker/mod.rs")?;
+    let f = find::func(&tc, "force_filtermap_types", Some("TypeChecker"))?;
+    let body = toks(&f.block);
+    require(&body, "if let ast::Declaration::FilterMap(f) = &expr {", "force_filtermap_types")?;
+    require(&body, "let signature = self.type_info.function_signature(&f.ident); let return_type = signature.return_type;", "force_filtermap_types")?;
+    require(&body, "let Type::Name(TypeName { name: _, arguments }) = &return_type else {", "force_filtermap_types")?;
+    require(&body, "let [a, r] = &arguments[..] else {", "force_filtermap_types")?;
+    let mut v = ForceArms::default();
+    syn::visit::Visit::visit_block(&mut v, &f.block);
+    if let Some(b) = v.bad.first() {
+        return Err(format!("force_filtermap_types: {b}"));
+    }
+    // every unification / resolution the function performs is one of the recognised statements
+    let n = v.arms.len();
+    if body.matches("unify(").count() != n || body.matches("resolve_type(").count() != n || n == 0 {
+        return Err(format!(
+            "force_filtermap_types: {} unify / {} resolve_type calls, {n} recognised `if let Type::_(x) = self.resolve_type(side) {{ unify … }}` statements: outside the model",
+            body.matches("unify(").count(),
+            body.matches("resolve_type(").count()
+        ));
+    }
+    Ok(v.arms)
+}
+
+// ------------------------------------------------------ TypeInfo::convert
+
+/// The arms of `TypeInfo::convert` for types that are still variables:
+/// (`Var` | `IntVar` | `FloatVar`, the `TyRef` constant returned).
+fn convert_defaults(repo: &Path) -> Result<Vec<(String, String)>, String> {
+    let info = find::parse(repo, "src/typechecker/info.rs")?;
+    let f = find::func(&info, "convert", Some("TypeInfo"))?;
+    let pre = toks(&f.block);
+    if !pre.starts_with("{letty=self.resolve(ty);letty=matchty{") {
+        return Err("TypeInfo::convert: expected `let ty = self.resolve(ty); let ty = match ty { … }`".into());
+    }
+    let ms = find::matches_on(&f.block, "ty");
+    let Some(m) = ms.first() else { return Err("TypeInfo::convert: no `match ty`".into()) };
+    let mut out = vec![];
+    for a in &m.arms {
+        let pat = toks(&a.pat);
+        for (p, name) in [("Type::Var(_)", "Var"), ("Type::IntVar(_,_)", "IntVar"), ("Type::FloatVar(_)", "FloatVar")] {
+            if pat.contains(&p[..p.find('(').unwrap()]) && pat.split('|').any(|alt| alt.starts_with(&p[..p.find('(').unwrap() + 1])) {
+                if pat != p || a.guard.is_some() {
+                    return Err(format!("TypeInfo::convert: unsupported arm `{}`", toks(a)));
+                }
+                let body = toks(&a.body);
+                let Some(k) = body.strip_prefix("returnTyRef::") else {
+                    return Err(format!("TypeInfo::convert: arm `{pat}` must return a TyRef constant, found `{body}`"));
+                };
+                out.push((name.to_string(), k.trim_end_matches(',').to_string()));
+            }
+        }
+    }
+    if out.len() != 3 {
+        return Err(format!("TypeInfo::convert: expected one arm each for Var, IntVar, FloatVar; found {out:?}"));
+    }
+    Ok(out)
+}
+
+// ------------------------------------------------------- Value::resolve
+
+/// What every `impl Value for X` records about `X` in the type registry:
+/// (`X`, `TypeDescription` variant, for each component the index of the impl's
+/// generic parameter whose registry entry (`P::resolve().type_id`) it is; 100+i
+/// for `TypeId::of::<P>()`). Any other statement in a `resolve` body — a cache,
+/// a branch, a different type argument to `store` — is outside the model.
+fn resolve_shapes(repo: &Path) -> Result<Vec<(String, String, Vec<usize>)>, String> {
+    let file = find::parse(repo, "src/value/mod.rs")?;
+    let mut out = vec![];
+    for it in &file.items {
+        let syn::Item::Impl(i) = it else { continue };
+        let Some((_, tr, _)) = &i.trait_ else { continue };
+        if path_str(tr) != "Value" {
+            continue;
+        }
+        // items that only exist for the checks' hooks are not part of the library
+        if i.attrs.iter().any(|a| a.path().is_ident("cfg") && a.meta.to_token_stream().to_string().contains("verif-hooks")) {
+            continue;
+        }
+        let ty = toks(&i.self_ty);
+        let generics: Vec<String> = i.generics.params.iter().filter_map(|g| match g {
+            syn::GenericParam::Type(t) => Some(t.ident.to_string()),
+            _ => None,
+        }).collect();
+        let Some(res) = i.items.iter().find_map(|ii| match ii {
+            syn::ImplItem::Fn(f) if f.sig.ident == "resolve" => Some(f),
+            _ => None,
+        }) else {
+            return Err(format!("impl Value for {ty}: no `resolve`"));
+        };
+        let stmts: Vec<&Stmt> = res.block.stmts.iter().collect();
+        let outside = |what: &str| Err(format!("<{ty} as Value>::resolve: {what}: outside the model (`let c = P::resolve().type_id;`… `let desc = TypeDescription::K(c…);` `TypeRegistry::store::<Self>(desc)`)"));
+        let Some((last, init)) = stmts.split_last() else { return outside("empty body") };
+        let last_s = toks(*last);
+        if init.is_empty() {
+            let Some(k) = last_s.strip_prefix("TypeRegistry::store::<Self>(TypeDescription::").and_then(|s| s.strip_suffix(')')) else {
+                return outside(&format!("`{last_s}`"));
+            };
+            if !k.chars().all(|c| c.is_alphanumeric()) {
+                return outside(&format!("`{last_s}`"));
+            }
+            out.push((ty, k.to_string(), vec![]));
+            continue;
+        }
+        if last_s != "TypeRegistry::store::<Self>(desc)" {
+            return outside(&format!("`{last_s}`"));
+        }
+        let Some((desc, lets)) = init.split_last() else { return outside("no description") };
+        let mut vars: Vec<(String, usize)> = vec![];
+        for st in lets {
+            let t = toks(*st);
+            // let v = P::resolve().type_id;  |  let v = TypeId::of::<P>();
+            let Some((v, rhs)) = t.strip_prefix("let").and_then(|s| s.strip_suffix(';')).and_then(|s| s.split_once('=')) else {
+                return outside(&format!("`{t}`"));
+            };
+            let comp = if let Some(p) = rhs.strip_suffix("::resolve().type_id") {
+                generics.iter().position(|g| g == p)
+            } else if let Some(p) = rhs.strip_prefix("TypeId::of::<").and_then(|s| s.strip_suffix(">()")) {
+                generics.iter().position(|g| g == p).map(|i| 100 + i)
+            } else {
+                None
+            };
+            let Some(comp) = comp else { return outside(&format!("`{t}`")) };
+            if !matches!(st, Stmt::Local(_)) || !v.chars().all(|c| c.is_alphanumeric() || c == '_') {
+                return outside(&format!("`{t}`"));
+            }
+            vars.push((v.to_string(), comp));
+        }
+        let d = toks(*desc);
+        let Some((k, args)) = d.strip_prefix("letdesc=TypeDescription::").and_then(|s| s.strip_suffix(");")).and_then(|s| s.split_once('(')) else {
+            return outside(&format!("`{d}`"));
+        };
+        let mut comps = vec![];
+        for a in args.split(',').filter(|a| !a.is_empty()) {
+            let Some((_, c)) = vars.iter().find(|(v, _)| v == a) else { return outside(&format!("`{d}`")) };
+            comps.push(*c);
+        }
+        if comps.len() != vars.len() {
+            return outside("a resolved component is not used in the description");
+        }
+        out.push((ty, k.to_string(), comps));
+    }
+    // the macro-generated leaf impls and the registry itself
+    let src = toks(&file);
+    let mac = file.items.iter().find_map(|it| match it {
+        syn::Item::Macro(m) if m.ident.as_ref().is_some_and(|i| i == "simple_value") => Some(m.mac.tokens.to_string().replace(' ', "")),
+        _ => None,
+    }).ok_or("macro_rules! simple_value not found")?;
+    require(&mac, "impl Value for $t {", "simple_value!")?;
+    require(&mac, "fn resolve() -> Ty { TypeRegistry::store::<Self>(TypeDescription::Leaf) }", "simple_value!")?;
+    require(&src, "pub fn store<T: 'static>(description: TypeDescription) -> Ty { let ty = Ty::new::<T>(description); GLOBAL_TYPE_REGISTRY.lock().unwrap().map.entry(ty.type_id).or_insert_with(|| { Box::leak(Box::new(ty)) }).clone() }", "TypeRegistry::store")?;
+    require(&src, "pub fn get(id: TypeId) -> Option<&'static Ty> { let registry = GLOBAL_TYPE_REGISTRY.lock().unwrap(); registry.map.get(&id).map(|v| &**v) }", "TypeRegistry::get")?;
+    require(&src, "pub fn resolve<T: Value>() -> Ty { T::resolve() }", "TypeRegistry::resolve")?;
+    require(&src, "fn new<T: 'static>(description: TypeDescription) -> Self { Self { rust_name: type_name::<T>(), layout: Layout::of::<T>(), type_id: TypeId::of::<T>(), description, } }", "Ty::new")?;
+    Ok(out)
+}
+
 fn gate(repo: &Path) -> R {
     let file = find::parse(repo, "src/codegen/check.rs")?;
     let f = find::func(&file, "check_roto_type", None)?;
@@ -835,5 +1035,33 @@ fn gate(repo: &Path) -> R {
     out.push_str("]\n\n/-- types whose `==` is the derived field-by-field equality -/\ndef derivedEq : List Ident := [");
     out.push_str(&derived.iter().map(|f| lit_ident(f)).collect::<Vec<_>>().join(", "));
     out.push_str("]\n\nend RotoV.Gen.Gate\n");
+    Ok(out)
+}
+
+/// `gatesig` → `Generated/GateSig.lean`: how a filtermap's signature is
+/// completed after type checking (`force_filtermap_types`) and what a
+/// signature type that is still a variable is compiled at (`TypeInfo::convert`).
+fn gatesig(repo: &Path) -> R {
+    let force = force_filtermap(repo)?;
+    let conv = convert_defaults(repo)?;
+    let mut out = String::new();
+    out.push_str("/- GENERATED by /verif/extract from src/typechecker/mod.rs, src/typechecker/info.rs — do not edit. -/\nimport RotoV.Model.Gate\nnamespace RotoV.Gen.GateSig\nopen RotoV.Gate\n\n");
+    out.push_str("/-- `force_filtermap_types`: (verdict side, pattern its resolved type is matched with, type it is unified with) -/\ndef forceArms : List (Ident × Ident × Ident) := [");
+    out.push_str(&force.iter().map(|(a, b, c)| format!("({}, {}, {})", lit_ident(a), lit_ident(b), lit_ident(c))).collect::<Vec<_>>().join(", "));
+    out.push_str("]\n\n/-- `TypeInfo::convert` (what a signature is compiled at): (type that is still a variable, `TyRef` constant) -/\ndef convertDefaults : List (Ident × Ident) := [");
+    out.push_str(&conv.iter().map(|(a, b)| format!("({}, {})", lit_ident(a), lit_ident(b))).collect::<Vec<_>>().join(", "));
+    out.push_str("]\n\nend RotoV.Gen.GateSig\n");
+    Ok(out)
+}
+
+/// `gatereg` → `Generated/GateReg.lean`: what `Value::resolve` records in the
+/// type registry for every type that implements `Value`.
+fn gatereg(repo: &Path) -> R {
+    let shapes = resolve_shapes(repo)?;
+    let mut out = String::new();
+    out.push_str("/- GENERATED by /verif/extract from src/value/mod.rs — do not edit. -/\nimport RotoV.Model.Gate\nnamespace RotoV.Gen.GateReg\nopen RotoV.Gate\n\n");
+    out.push_str("/-- `<X as Value>::resolve`: (X, description variant, generic parameter behind each component; 100+i: `TypeId::of`) -/\ndef resolveShapes : List (Ident × Ident × List Nat) := [\n");
+    out.push_str(&shapes.iter().map(|(a, b, c)| format!("  ({}, {}, {:?})", lit_ident(a), lit_ident(b), c)).collect::<Vec<_>>().join(",\n"));
+    out.push_str("]\n\nend RotoV.Gen.GateReg\n");
     Ok(out)
 }
